@@ -14,6 +14,15 @@ Extracted decisions:
   BaseDataFrame._create_hash_from_expression                          what goes into a CTE name (must be the SQL text only)
   BaseDataFrame._add_ctes_to_expression                               the uuid literal is inserted only on a CTE-name clash
   TypedColumnsFromTempViewMixin._typed_columns                        schema lookup through a TEMPORARY view named by a random id
+  BaseDataFrame._ensure_and_normalize_col / _ensure_and_normalize_cols  is the caller's Column copied before `normalize` rewrites it,
+                                                                      against which expression is it normalised
+  Column.copy, normalize._ensure_expressions / _set_alias_name        the copy is deep; normalize works in place on the tree it is given
+  _BaseSession.sql                                                    the arguments of sqlglot's `qualify`: the schema is the catalog's, the
+                                                                      `infer_schema` argument as a boolean expression over the session state
+  _BaseDataFrameReader.table, _BaseCatalog.add_table                  a table lookup caches the columns; known columns are kept unless replace=True
+  _BaseSession.read, BaseDataFrame.write / na / stat                  the builder objects are created anew at every access (plain @property around a constructor)
+  every method of BaseDataFrame                                       does it edit `self.expression` in place (a sqlglot builder call with copy=False, or .set / .append / .pop
+                                                                      on it)?  The @operation wrapper hands the method the receiver itself, not a copy
 
 Anything outside the recognised shapes raises Untranslatable (never a default).
 """
@@ -228,8 +237,234 @@ def _typed_columns(repo: str) -> t.Dict[str, bool]:
     return {"uses_view": True, "temporary": temporary}
 
 
+def _normalize_paths(repo: str) -> t.Dict[str, t.Any]:
+    """which object does `normalize` rewrite on the two paths every DataFrame method goes through?"""
+    df = find_class(parse(repo, "sqlframe/base/dataframe.py"), "BaseDataFrame")
+    out: t.Dict[str, t.Any] = {}
+    shapes = {
+        "single": {
+            "Column.ensure_col(col).copy()": True,
+            "Column.ensure_col(col)": False,
+        },
+        "multi": {
+            "[col.copy() for col in self._ensure_list_of_columns(cols)]": True,
+            "self._ensure_list_of_columns(cols)": False,
+            "[col for col in self._ensure_list_of_columns(cols)]": False,
+            "list(self._ensure_list_of_columns(cols))": False,
+        },
+    }
+    contexts = {"single": {"self.expression"}, "multi": {"expression or self.expression"}}
+    for key, fname in (("single", "_ensure_and_normalize_col"), ("multi", "_ensure_and_normalize_cols")):
+        ob = f"Gen.SessionIds.normalizePath.{fname}"
+        fn = find_func(df.body, fname)
+        calls = [n for n in ast.walk(fn) if isinstance(n, ast.Call) and isinstance(n.func, ast.Name) and n.func.id == "normalize"]
+        if len(calls) != 1 or len(calls[0].args) != 3 or calls[0].keywords:
+            raise Untranslatable(ob, "expected exactly one call normalize(session, expression, cols)")
+        a_sess, a_ctx, a_cols = calls[0].args
+        if _u(a_sess) != "self.session":
+            raise Untranslatable(ob, f"normalize is given the session {_u(a_sess)!r}")
+        if _u(a_ctx) not in contexts[key]:
+            raise Untranslatable(ob, f"normalize works against {_u(a_ctx)!r}, not against the DataFrame's own expression")
+        if not isinstance(a_cols, ast.Name):
+            raise Untranslatable(ob, "normalize's third argument is not a local name")
+        assigns = [
+            n
+            for n in ast.walk(fn)
+            if isinstance(n, ast.Assign) and len(n.targets) == 1 and isinstance(n.targets[0], ast.Name) and n.targets[0].id == a_cols.id and n.lineno < calls[0].lineno
+        ]
+        if not assigns:
+            out[key] = False  # the caller's own object is normalised
+            continue
+        src = _u(max(assigns, key=lambda n: n.lineno).value)
+        if src not in shapes[key]:
+            raise Untranslatable(ob, f"the value handed to normalize is {src!r}: not a recognised shape")
+        out[key] = shapes[key][src]
+    # Column.copy
+    ob = "Gen.SessionIds.columnCopy"
+    col = find_class(parse(repo, "sqlframe/base/column.py"), "Column")
+    b = _body(find_func(col.body, "copy"))
+    if b == ["return Column(self.expression.copy())"]:
+        out["copy_deep"] = True
+    elif b in (["return Column(self.expression)"], ["return self"]):
+        out["copy_deep"] = False
+    else:
+        raise Untranslatable(ob, f"Column.copy body not recognised: {b}")
+    # normalize works in place on the expression of the Column it is given
+    ob = "Gen.SessionIds.normalizeInPlace"
+    mod = parse(repo, "sqlframe/base/normalize.py")
+    b = _body(find_func(mod.body, "_set_alias_name"))
+    if b != ["id.set('this', name)", "id.set('quoted', False)"]:
+        raise Untranslatable(ob, f"_set_alias_name body not recognised: {b}")
+    ens = find_func(mod.body, "_ensure_expressions")
+    appends = sorted(_u(n.args[0]) for n in ast.walk(ens) if isinstance(n, ast.Call) and isinstance(n.func, ast.Attribute) and n.func.attr == "append" and n.args)
+    if appends != sorted(["Column.ensure_col(value).expression", "value.expression", "value"]):
+        raise Untranslatable(ob, f"_ensure_expressions collects {appends}")
+    return out
+
+
+def _bool_expr(node: ast.AST, ob: str) -> str:
+    """a boolean expression over the session state -> Lean over `tempViews` (the session holds a temp view) and
+    `schemaEmpty` (the catalog schema knows no table)"""
+    if isinstance(node, ast.Constant) and isinstance(node.value, bool):
+        return "true" if node.value else "false"
+    if isinstance(node, ast.UnaryOp) and isinstance(node.op, ast.Not):
+        return f"(!{_bool_expr(node.operand, ob)})"
+    if isinstance(node, ast.BoolOp):
+        op = " && " if isinstance(node.op, ast.And) else " || "
+        return "(" + op.join(_bool_expr(v, ob) for v in node.values) + ")"
+    if isinstance(node, ast.Call) and isinstance(node.func, ast.Name) and node.func.id == "bool" and len(node.args) == 1 and not node.keywords:
+        return _bool_expr(node.args[0], ob)
+    src = _u(node)
+    if src == "self.temp_views":
+        return "tempViews"
+    if src in ("len(self.temp_views) > 0", "len(self.temp_views) != 0", "len(self.temp_views) >= 1"):
+        return "tempViews"
+    if src == "len(self.temp_views) == 0":
+        return "(!tempViews)"
+    if src == "self.catalog._schema.empty":
+        return "schemaEmpty"
+    raise Untranslatable(ob, f"boolean expression {src!r} over the session state is outside the recognised sub-language")
+
+
+def _session_sql(repo: str) -> t.Dict[str, t.Any]:
+    ob = "Gen.SessionIds.sqlQualify"
+    ses = find_class(parse(repo, "sqlframe/base/session.py"), "_BaseSession")
+    fn = find_func(ses.body, "sql")
+    calls = [n for n in ast.walk(fn) if isinstance(n, ast.Call) and isinstance(n.func, ast.Name) and n.func.id == "qualify_func"]
+    if len(calls) != 1:
+        raise Untranslatable(ob, f"expected one qualify_func call in session.sql, found {len(calls)}")
+    call = calls[0]
+    if len(call.args) != 1 or _u(call.args[0]) != "expression":
+        raise Untranslatable(ob, "qualify_func is not applied to the parsed statement")
+    kws = {k.arg: k.value for k in call.keywords}
+    if None in kws or set(kws) != {"dialect", "quote_identifiers", "identify", "schema", "infer_schema"}:
+        raise Untranslatable(ob, f"qualify_func keyword arguments {sorted(str(k) for k in kws)}")
+    if _u(kws["schema"]) != "self.catalog._schema":
+        raise Untranslatable(ob, f"the statement is qualified against {_u(kws['schema'])!r}, not against the catalog's schema")
+    for k in ("quote_identifiers", "identify"):
+        if not (isinstance(kws[k], ast.Constant) and kws[k].value is False):
+            raise Untranslatable(ob, f"{k}={_u(kws[k])}")
+    # the call sits directly under `if qualify:` (a parameter that defaults to True) in the function body
+    guards = [s for s in fn.body if isinstance(s, ast.If) and any(n is call for n in ast.walk(s))]
+    if len(guards) != 1 or _u(guards[0].test) != "qualify" or guards[0].orelse:
+        raise Untranslatable(ob, "the qualify step is not guarded by the `qualify` parameter alone")
+    params = {a.arg: d for a, d in zip(reversed(fn.args.args), reversed(fn.args.defaults))}
+    if "qualify" not in params or not (isinstance(params["qualify"], ast.Constant) and params["qualify"].value is True):
+        raise Untranslatable(ob, "the `qualify` parameter does not default to True")
+    infer = _bool_expr(kws["infer_schema"], ob)
+    # a table lookup caches the columns, and known columns win unless replace=True
+    ob2 = "Gen.SessionIds.tableLookup"
+    rd = find_class(parse(repo, "sqlframe/base/readerwriter.py"), "_BaseDataFrameReader")
+    tb = find_func(rd.body, "table")
+    adds = [n for n in ast.walk(tb) if isinstance(n, ast.Call) and isinstance(n.func, ast.Attribute) and n.func.attr == "add_table"]
+    if len(adds) != 1 or _u(adds[0]) != "self.session.catalog.add_table(table)":
+        raise Untranslatable(ob2, "reader.table does not call catalog.add_table(table)")
+    cat = find_class(parse(repo, "sqlframe/base/catalog.py"), "_BaseCatalog")
+    at = find_func(cat.body, "add_table")
+    guards = [s for s in at.body if isinstance(s, ast.If) and len(s.body) == 1 and isinstance(s.body[0], ast.Return) and s.body[0].value is None]
+    if len(guards) == 1 and _u(guards[0].test) == "not replace and self._schema.find(table)":
+        keeps = True
+    elif not guards:
+        keeps = False
+    else:
+        raise Untranslatable(ob2, f"add_table's early return is guarded by {[_u(g.test) for g in guards]}")
+    dflt = {a.arg: d for a, d in zip(reversed(at.args.args), reversed(at.args.defaults))}
+    if "replace" not in dflt or not (isinstance(dflt["replace"], ast.Constant) and dflt["replace"].value is False):
+        raise Untranslatable(ob2, "add_table's `replace` does not default to False")
+    return {"infer": infer, "keeps": keeps}
+
+
+ACCESSOR_BODIES = {
+    "read": "return self._reader(self)",
+    "write": "return self.session._writer(self)",
+    "na": "return self._na(self)",
+    "stat": "return self._stat(self)",
+}
+
+
+def _accessors(repo: str) -> t.Dict[str, bool]:
+    """is the builder object behind each accessor created anew at every access?"""
+    ses = find_class(parse(repo, "sqlframe/base/session.py"), "_BaseSession")
+    df = find_class(parse(repo, "sqlframe/base/dataframe.py"), "BaseDataFrame")
+    out: t.Dict[str, bool] = {}
+    for name, cls in (("read", ses), ("write", df), ("na", df), ("stat", df)):
+        ob = f"Gen.SessionIds.accessor.{name}"
+        fn = find_func(cls.body, name)
+        decos = [_u(d) for d in fn.decorator_list]
+        b = _body(fn)
+        if b != [ACCESSOR_BODIES[name]]:
+            raise Untranslatable(ob, f"body not recognised: {b}")
+        if decos == ["property"]:
+            out[name] = True
+        elif decos in (["cached_property"], ["functools.cached_property"], ["functools.cache"], ["property", "functools.cache"], ["property", "cache"]):
+            out[name] = False
+        else:
+            raise Untranslatable(ob, f"decorators {decos}")
+    return out
+
+
+MUTATORS = {"set", "append", "pop", "replace", "update"}
+
+
+def _rooted_at_own_expression(node: ast.AST, aliases: t.Set[str]) -> bool:
+    """is this the receiver's own expression tree — `self.expression`, a local bound to it, or something reached
+    from it through attribute access / builder calls that themselves work in place?"""
+    while True:
+        if isinstance(node, ast.Attribute):
+            if _u(node) == "self.expression":
+                return True
+            node = node.value
+        elif isinstance(node, ast.Subscript):
+            node = node.value
+        elif isinstance(node, ast.Call):
+            # a builder call that copies (the default) yields a new tree; one with copy=False stays in the receiver's tree
+            if any(k.arg == "copy" and isinstance(k.value, ast.Constant) and k.value.value is False for k in node.keywords):
+                node = node.func
+            else:
+                return False
+        elif isinstance(node, ast.Name):
+            return node.id in aliases
+        else:
+            return False
+
+
+def _in_place_methods(repo: str) -> t.List[str]:
+    df = find_class(parse(repo, "sqlframe/base/dataframe.py"), "BaseDataFrame")
+    bad: t.List[str] = []
+    for fn in df.body:
+        if not isinstance(fn, ast.FunctionDef):
+            continue
+        aliases = {
+            n.targets[0].id
+            for n in ast.walk(fn)
+            if isinstance(n, ast.Assign) and len(n.targets) == 1 and isinstance(n.targets[0], ast.Name) and _u(n.value) == "self.expression"
+        }
+        hit = False
+        for n in ast.walk(fn):
+            if isinstance(n, ast.Call) and isinstance(n.func, ast.Attribute):
+                in_place_kw = any(k.arg == "copy" and isinstance(k.value, ast.Constant) and k.value.value is False for k in n.keywords)
+                dyn_kw = any(k.arg == "copy" and not isinstance(k.value, ast.Constant) for k in n.keywords)
+                if _rooted_at_own_expression(n.func.value, aliases):
+                    if dyn_kw:
+                        raise Untranslatable("Gen.SessionIds.builders", f"{fn.name}: `copy=` of a builder call on self.expression is not a literal")
+                    if in_place_kw or n.func.attr in MUTATORS:
+                        hit = True
+            if isinstance(n, (ast.Assign, ast.AugAssign)):
+                tgts = n.targets if isinstance(n, ast.Assign) else [n.target]
+                for tg in tgts:
+                    if isinstance(tg, (ast.Subscript, ast.Attribute)) and _u(tg) != "self.expression" and _rooted_at_own_expression(tg.value if isinstance(tg, ast.Subscript) else tg.value, aliases):
+                        hit = True
+        if hit:
+            bad.append(fn.name)
+    return sorted(set(bad))
+
+
 def gen_session_ids(repo: str) -> str:
     ids = _ids(repo)
+    acc = _accessors(repo)
+    inplace = _in_place_methods(repo)
+    np_ = _normalize_paths(repo)
+    sq = _session_sql(repo)
     _alias(repo)
     lk = _lookups(repo)
     hs = _hash(repo)
@@ -267,6 +502,25 @@ def gen_session_ids(repo: str) -> str:
     out.append("/-- `_typed_columns` creates a view named by a random id; is it TEMPORARY? -/")
     out.append(f"def sessSchemaViaView : Bool := {_b(tc['uses_view'])}")
     out.append(f"def sessSchemaViewTemporary : Bool := {_b(tc['temporary'])}")
+    out.append("/-- `_ensure_and_normalize_col` (where / withColumn / …) and `_ensure_and_normalize_cols` (select / join / orderBy / …):")
+    out.append("    is `normalize`, which rewrites identifiers in place, given a copy of the caller's Column? -/")
+    out.append(f"def sessNormColCopies : Bool := {_b(np_['single'])}")
+    out.append(f"def sessNormColsCopies : Bool := {_b(np_['multi'])}")
+    out.append("/-- `Column.copy` copies the expression tree -/")
+    out.append(f"def sessColumnCopyDeep : Bool := {_b(np_['copy_deep'])}")
+    out.append("set_option linter.unusedVariables false in")
+    out.append("/-- the `infer_schema` argument `session.sql` hands to sqlglot's `qualify` (with `schema=self.catalog._schema`),")
+    out.append("    as a function of: the session holds a temp view; the catalog schema knows no table -/")
+    out.append(f"def sessSqlInferSchema (tempViews schemaEmpty : Bool) : Bool := {sq['infer']}")
+    out.append("/-- `session.table(<permanent table>)` caches the table's columns; `add_table` keeps known columns unless replace=True -/")
+    out.append(f"def sessLookupKeepsKnownCols : Bool := {_b(sq['keeps'])}")
+    out.append("/-- the builder objects behind `session.read`, `df.write`, `df.na`, `df.stat` are created anew at every access -/")
+    out.append(f"def sessReadFresh : Bool := {_b(acc['read'])}")
+    out.append(f"def sessWriteFresh : Bool := {_b(acc['write'])}")
+    out.append(f"def sessNaFresh : Bool := {_b(acc['na'])}")
+    out.append(f"def sessStatFresh : Bool := {_b(acc['stat'])}")
+    out.append("/-- methods of BaseDataFrame that edit `self.expression` in place (builder call with copy=False, .set / .append / … on it) -/")
+    out.append("def sessInPlaceBuilderMethods : List String := [" + ", ".join(lean_str(m) for m in inplace) + "]")
     out.append("")
     out.append("end Sqlframe.Gen")
     return "\n".join(out) + "\n"
